@@ -555,12 +555,16 @@ def shrink(check: Check, case: dict, violation: dict, max_steps: int = 400, max_
 
 def write_replay(check, seed, idx, case, violation, shrink_log) -> str:
     os.makedirs(REPLAY_DIR, exist_ok=True)
-    path = os.path.join(REPLAY_DIR, f"{check.pid}-{seed}-{idx}.json")
     doc = {"property": check.pid, "clause": violation.get("clause"), "seed": seed, "run_index": idx,
            "expect": violation, "case": case, "shrink_steps": shrink_log,
            "versions": {"python": sys.version.split()[0]}}
-    with open(path, "w") as f:
-        json.dump(doc, f, indent=1, default=_jdefault)
+    text = json.dumps(doc, indent=1, default=_jdefault)
+    # the name carries a digest of the content: two invocations running side by side (e.g. against two trees) never overwrite each other's file
+    path = os.path.join(REPLAY_DIR, f"{check.pid}-{seed}-{idx}-{hashlib.sha256(text.encode()).hexdigest()[:8]}.json")
+    tmp = f"{path}.{os.getpid()}.tmp"
+    with open(tmp, "w") as f:
+        f.write(text)
+    os.replace(tmp, path)
     return path
 
 
